@@ -249,6 +249,14 @@ ComposeCands(s, which) ==
                                            [op |-> "compose2", n |-> 2, fmt |-> "eblif", opts |-> o]>>] :
                    o \in {oo \in ComposeOpts : ~oo.defparam /\ ~oo.definition_list}}
           ELSE {})
+(* C15: every single corruption of the rendering of a design, per format *)
+ParseCands(s, which) ==
+    UNION {IF ("c15_" \o f) \in which
+           THEN {[op |-> "parse_text", n |-> 1, fmt |-> f, kind |-> "none", idx |-> 0]}
+                \cup {[op |-> "parse_text", n |-> 1, fmt |-> f, kind |-> kd, idx |-> i] :
+                         <<kd, i>> \in {"trunc", "del", "dup", "repl"} \X (0..399)}
+                \cup (IF f = "edif" THEN {[op |-> "parse_text", n |-> 1, fmt |-> f, kind |-> "dangle", idx |-> i] : i \in 0..39} ELSE {})
+           ELSE {} : f \in {"edif", "verilog", "eblif"}}
 EdifOpts == [rename : BOOLEAN, case : {"same", "upper"}, bitorder : {"asc", "desc", "mixed"},
              comments : BOOLEAN, skip_empty : BOOLEAN]
 FmtCands(s, which) ==
@@ -330,7 +338,14 @@ QScope == [init |-> QInit, ops |-> {}, max |-> MaxAll(0), names |-> {}, vals |->
            createN |-> {0}, queries |-> {"C13"}, walk |-> FALSE, sample |-> 3000]
 
 ScopeTable ==
-  [ c16_edif |-> FmtScope({"c16_edif"}),
+  [ c15_edif |-> [FmtScope({"c15_edif"}) EXCEPT !.init = FmtInit \o << Cchild(3, "u", 1), Cchild(4, "v", 3),
+                                                 Cconnect(1, OPin(2, 1)), Cconnect(6, OPin(3, 4)), Cconnect(6, IPin(7)) >>, !.ops = {}],
+    c15_vlog |-> [VlogScope({"c15_verilog"}) EXCEPT !.init = VlogInit \o << Cconnect(5, OPin(2, 1)), Cconnect(12, OPin(3, 3)),
+                                                 Cconnect(13, OPin(3, 4)) >>, !.ops = {}],
+    c15_eblif |-> [EblifScope({"c15_eblif"}) EXCEPT !.init = EblifInit \o << Cchild(3, "u", 1), Cchild(3, "v", 2),
+                                                 Cconnect(6, OPin(2, 1)), Cconnect(10, OPin(2, 2)), Cconnect(10, OPin(3, 3)),
+                                                 Cconnect(9, OPin(3, 5)) >>, !.ops = {}],
+    c16_edif |-> FmtScope({"c16_edif"}),
     c16_edif3 |-> [FmtScope({"c16_edif"}) EXCEPT !.init = FmtInit3, !.parents = {1, 4}],
     c16_vlog |-> VlogScope({"c16_vlog"}),
     c16_eblif |-> EblifScope({"c16_eblif"}),
@@ -435,6 +450,7 @@ QCands(s) ==
     \cup VlogCands(s, Queries)
     \cup EblifCands(s, Queries)
     \cup ComposeCands(s, Queries)
+    \cup ParseCands(s, Queries)
     \cup (IF "C13" \in Queries THEN RandomSubset(Scope.sample * (MaxDepth + 1), QueryProduct(s)) \cup DirectProduct(s) ELSE {})
     \cup (IF "xf2" \in Queries
           THEN StepCands(s) \cup {[op |-> "uniquify", n |-> n] : n \in IdsN(s)}
